@@ -97,6 +97,12 @@ pub fn run(cases_path: &str, report_path: &str, opts: &[String]) {
         let base_hdr = bytes.windows(5).position(|w| w == b"%PDF-").unwrap_or(0);
         let in_domain = base_hdr + h <= 1019;
         let mut pre = prefix(h, &mut rng, ci);
+        // the bytes before the header may end with a proper prefix of the marker itself ("progress: 100%", "%PD")
+        let tail = case["tail"].as_str().unwrap_or("plain");
+        if tail != "plain" && pre.len() >= tail.len() {
+            let n = pre.len();
+            pre[n - tail.len()..].copy_from_slice(tail.as_bytes());
+        }
         pre.extend_from_slice(&bytes);
         let got = snapshot(&pre, &pw, true);
         let d = diff_keys(&base, &got);
